@@ -126,6 +126,38 @@ func famErrors(w *World) {
 			w.violate("C20", "connection-loss-not-network", "call %s lost its connection in flight and ended with %s, want ErrCodeNetwork", r3.Spec.Tag, errStr(r3.Err))
 		}
 	case 4: // a call reaching a closing peer -> declined
+		if scnChance(1, 2) {
+			// the closing peer is kept open by its own OUTBOUND call on the connection (which is
+			// then past the "inbound drained" stage of its close) when the new call reaches it
+			c1 := w.addNode(NodeOpts{Name: "c1", Service: "client1", Host: "10.0.3.2", Port: 4100, Conn: w.connOptsBig()})
+			c1.Ch.Register(&echoHandler{w: w, n: c1}, "echo")
+			warm := w.newCall(CallSpec{From: c1, To: srv.HostPort, Service: srv.Service, Via: "direct", Timeout: 5 * time.Second, Rs2: -1, Rs3: -1})
+			w.Call(warm)
+			hold := w.newCall(CallSpec{From: srv, To: c1.HostPort, Service: c1.Service, Via: "direct", Timeout: 20 * time.Second, Delay: 3 * time.Second, Rs2: -1, Rs3: -1})
+			late := w.newCall(CallSpec{From: c1, To: srv.HostPort, Service: srv.Service, Via: "direct", Timeout: 2 * time.Second, Len3: scn(3000), Rs2: -1, Rs3: -1})
+			gap := time.Duration(1+scn(100)) * w.Grid
+			w.tasks(func() { w.Call(hold) }, func() {
+				sleep(200 * time.Millisecond)
+				srv.Close()
+				sleep(gap)
+				w.Call(late)
+			})
+			w.eval("C20.local-condition")
+			nlinks := 0
+			for _, l := range w.Net.Links {
+				if (l.A.Owner == c1.Name && l.B.Owner == srv.Name) || (l.A.Owner == srv.Name && l.B.Owner == c1.Name) {
+					nlinks++
+				}
+			}
+			if warm.Err == nil && nlinks == 1 {
+				// everything went over the one connection
+				w.probe("C20.closing-peer-held-by-outbound-call")
+				if c := tchannel.GetSystemErrorCode(late.Err); c != tchannel.ErrCodeDeclined {
+					w.violate("C20", "closing-peer-not-declined", "call %s reached a closing peer over a connection kept open only by that peer's own outbound call, and ended with %s, want ErrCodeDeclined", late.Spec.Tag, errStr(late.Err))
+				}
+			}
+			break
+		}
 		hold := w.newCall(CallSpec{From: cli, To: srv.HostPort, Service: srv.Service, Via: "direct", Timeout: 20 * time.Second, Delay: 3 * time.Second, Rs2: -1, Rs3: -1})
 		late := w.newCall(CallSpec{From: cli, To: srv.HostPort, Service: srv.Service, Via: "direct", Timeout: 10 * time.Second, Len3: scn(3000), Rs2: -1, Rs3: -1})
 		w.tasks(func() { w.Call(hold) }, func() {
